@@ -368,6 +368,9 @@ func (s *Source) Read(p []byte) (int, error) {
 		if s.Log {
 			s.Events = append(s.Events, ReadEvent{Off: s.pos, Want: len(p), Got: n, Failed: true})
 		}
+		if s.FailMode == "eof" {
+			return n, io.EOF
+		}
 		return n, ErrInjected
 	}
 	if len(p) == 0 {
